@@ -89,6 +89,37 @@ def coq_make(targets=None, timeout=1500):
     return rc == 0, out
 
 
+def strip_comments(txt):
+    """remove (possibly nested) Coq comments, keeping line structure"""
+    out = []
+    depth = 0
+    i = 0
+    n = len(txt)
+    in_str = False
+    while i < n:
+        ch = txt[i]
+        if depth == 0 and ch == '"':
+            in_str = not in_str
+            out.append(ch)
+            i += 1
+            continue
+        if not in_str and txt.startswith("(*", i):
+            depth += 1
+            i += 2
+            continue
+        if not in_str and depth > 0 and txt.startswith("*)", i):
+            depth -= 1
+            i += 2
+            continue
+        if depth > 0:
+            if ch == "\n":
+                out.append(ch)
+        else:
+            out.append(ch)
+        i += 1
+    return "".join(out)
+
+
 def grep_forbidden():
     """list of 'file:line: text' for forbidden vernacular in the development"""
     hits = []
@@ -100,11 +131,7 @@ def grep_forbidden():
             if "/Generated/" in path:
                 continue
             txt = open(path, errors="replace").read()
-            # drop comments (non-nested is enough here; nested handled by loop)
-            prev = None
-            while prev != txt:
-                prev = txt
-                txt = re.sub(r"\(\*[^()]*?\*\)", lambda m: "\n" * m.group(0).count("\n"), txt, flags=re.S)
+            txt = strip_comments(txt)
             for i, line in enumerate(txt.split("\n"), 1):
                 if FORBIDDEN.search(line):
                     hits.append("%s:%d: %s" % (os.path.relpath(path, VERIF), i, line.strip()))
